@@ -60,7 +60,8 @@ def run(rep, tier, rng):
     # operands derived by a unary operation keep their vocabulary; outputs of modules with distinct input / output vocabularies
     operands += [("KSym", 0, "linv"), ("KSym", 1, "rinv"), ("KSym", 0, "inv"), ("KSym", 1, "neg"), ("KSym", 0, "normalized"),
                  ("KDyn", 0, "neg"), ("KDyn", 1, "inv"), ("KSp", 0, "neg"), ("KSp", 1, "inv"),
-                 ("KDyn", 1, "assoc-out"), ("KDyn", 0, "bind-out")]
+                 ("KDyn", 1, "assoc-out"), ("KDyn", 0, "bind-out"),
+                 ("KDyn", 0, "sum"), ("KDyn", 1, "sum"), ("KDyn", 0, "scaled"), ("KDyn", 1, "scaled")]
     # 1-d vocabularies; a dynamic operand reinterpreted without a target vocabulary (type: any vocabulary of dimension 16);
     # a vocabulary-less pointer whose length is next to 16
     operands += [("KDyn", 5, None), ("KDyn", 6, None), ("KSp", 6, None), ("KDyn", None, "reint-none"), ("KSp", None, "hrr17")]
@@ -87,6 +88,10 @@ def run(rep, tier, rng):
             return as_ast_node(st_.output)
         if k == "KDyn" and ex == "reint-none":
             return spa.reinterpret(as_ast_node(spa.State(vocs[0])))
+        if k == "KDyn" and ex in ("sum", "scaled"):
+            # a sum of two module outputs / a module output scaled by a number keeps the modules' vocabulary
+            nd = as_ast_node(spa.State(vocs[vi]))
+            return nd + as_ast_node(spa.State(vocs[vi])) if ex == "sum" else 0.5 * nd
         if k == "KDyn" and ex in ("neg", "inv"):
             nd = as_ast_node(spa.State(vocs[vi]))
             return -nd if ex == "neg" else ~nd
